@@ -45,10 +45,17 @@ type c16Case struct {
 	Cfg   StoreCfg
 	Names []string
 	Ops   []c16Op
+	// Pairs: operations 2i and 2i+1 run concurrently (two clients).  Only the
+	// conservation and non-overlap clauses are judged then; the order clauses
+	// of the statement are about what a listener sees of sequential operations.
+	Pairs bool
 }
 
 func (k *c16Case) Describe() []string {
 	l := []string{"store " + k.Cfg.String(), "mailboxes " + strings.Join(k.Names, " | ")}
+	if k.Pairs {
+		l = append(l, "operations 2i and 2i+1 run concurrently")
+	}
 	for i, o := range k.Ops {
 		l = append(l, fmt.Sprintf("%3d %s", i, o))
 	}
@@ -78,6 +85,7 @@ func genC16(w *simrt.Choices, tier string, avoid map[string]bool) Case {
 		k.Cfg.Cap = 0
 	}
 	k.Names = []string{"alice", "bob", "carol"}[:1+w.Choose(3)]
+	k.Pairs = w.Choose(3) == 1
 	n := 3 + w.Choose(14)
 	limit := k.Cfg.MaxKB * 1024
 	if limit == 0 {
@@ -102,6 +110,9 @@ func genC16(w *simrt.Choices, tier string, avoid map[string]bool) Case {
 			o.Kind, o.Box = "purge", k.Names[w.Choose(len(k.Names))]
 		default:
 			o.Kind, o.Old = "retention", w.Choose(2) == 1
+		}
+		if k.Pairs && i%2 == 1 && o.Kind == "remove" && k.Ops[i-1].Kind == "remove" && w.Choose(2) == 0 {
+			o.Box, o.Ref = k.Ops[i-1].Box, k.Ops[i-1].Ref // both clients delete the same message
 		}
 		k.Ops = append(k.Ops, o)
 	}
@@ -170,10 +181,9 @@ func runC16(c *Ctx, cs Case) {
 		}
 	}
 	tok := 0
-	for i, o := range k.Ops {
+	doOp := func(i int, o c16Op, mytok int) {
 		switch o.Kind {
 		case "deliver":
-			tok++
 			var rcpts []*policy.Recipient
 			for _, n := range o.Rcpts {
 				r, err := ap.NewRecipient(n + "@example.com")
@@ -183,7 +193,7 @@ func runC16(c *Ctx, cs Case) {
 				rcpts = append(rcpts, r)
 			}
 			from, _ := ap.ParseOrigin("sender@example.org")
-			body := bodyFromSeed(uint64(tok), fmt.Sprintf("tok%d", tok), o.Size)
+			body := bodyFromSeed(uint64(mytok), fmt.Sprintf("tok%d", mytok), o.Size)
 			if err := mgr.Deliver(from, rcpts, "Received: from sim ([192.0.2.7]) by inbucket\r\n", body); err != nil {
 				c.Failf(tagOf(k.Cfg)+"/Deliver->error", "op %d %s: %v", i, o, err)
 				return
@@ -204,6 +214,22 @@ func runC16(c *Ctx, cs Case) {
 			if err := rs.DoScan(context.Background()); err != nil {
 				c.Failf(tagOf(k.Cfg)+"/DoScan->error", "op %d: %v", i, err)
 			}
+		}
+	}
+	for i := 0; i < len(k.Ops); i++ {
+		if k.Pairs && i+1 < len(k.Ops) {
+			a, b := i, i+1
+			tok += 2
+			ta, tb := tok-1, tok
+			t1 := simrt.Go("clientA", func() { doOp(a, k.Ops[a], ta) })
+			t2 := simrt.Go("clientB", func() { doOp(b, k.Ops[b], tb) })
+			c.Main.Join(t1)
+			c.Main.Join(t2)
+			c.Stat("probe.concurrent_operation_pairs", 1)
+			i++
+		} else {
+			tok++
+			doOp(i, k.Ops[i], tok)
 		}
 		sweep()
 		if c.Failed() {
@@ -270,6 +296,9 @@ func runC16(c *Ctx, cs Case) {
 		if o.maxOpen > 1 {
 			overlapSeen = true
 			c.Failf("listener-invocations-overlap", "%s was invoked again while a previous invocation was still running (%d at once)", o.name, o.maxOpen)
+		}
+		if k.Pairs {
+			continue // the order clauses are about sequential operations
 		}
 		// stored before deleted
 		for _, e := range o.events {
@@ -370,7 +399,9 @@ func init() {
 			"AfterMessageStored/AfterMessageDeleted, each invocation contains scheduling points, and the seed decides when every event " +
 			"goroutine runs relative to the operations that follow. At quiescence: exactly one stored event per id that ever appeared in a " +
 			"listing, exactly one deleted event iff it is no longer listed (whatever removed it), none for unknown ids, no overlapping " +
-			"invocations per observer, stored before deleted, stored events of a mailbox in arrival order. non-trivial = >2 events observed",
+			"invocations per observer, stored before deleted, stored events of a mailbox in arrival order. In a third of the runs two clients " +
+			"issue the operations pairwise concurrently (sometimes deleting the same message); the conservation and non-overlap clauses are " +
+			"judged there, the order clauses only for sequential operations. non-trivial = >2 events observed",
 		Real:        []string{"pkg/extension (AsyncEventBroker)", "pkg/message StoreManager.Deliver", "pkg/storage/mem", "pkg/storage/file", "RetentionScanner.DoScan"},
 		Stub:        []string{"scheduler (simrt)", "disk (simfs)", "clock (synctest)"},
 		Assumptions: []string{"one client issues the operations; the asynchronous dimension is the event dispatch"},
